@@ -73,6 +73,23 @@ namespace gs
     // buf/cap: the receive buffer handed to the library (owned by the caller, must outlive the receiver)
     Receiver *make_receiver(int codec, uint8_t *buf, int cap);
 
+    // a configurable receiver for an arbitrary alphabet (gstuff_autorecv(ctx) with a context filled from m)
+    Receiver *make_receiver_markers(const Markers &m, uint8_t *buf, int cap);
+
+    // ---- the configurable encoders driven through ONE context object whose contents change (C04 reassigned_context) ----
+    enum CtxHow
+    {
+        SAME_OBJECT_REASSIGNED = 0, // one static gstuff_context, assigned a new alphabet before the call, passed by reference
+        BY_VALUE_HELPER = 1,        // the alphabet travels as a by-value gstuff_context parameter of one non-inlined helper
+        NCTXHOW
+    };
+    // encode one byte through a DIFFERENT context object: any per-context state inside the library is in a known state
+    // afterwards, whatever earlier cases of the same process did (keeps cases independent of each other)
+    void ctx_flush();
+    // entry as in Entry below; raw entries write into an exactly 2n+4-byte heap block; the *_v entries get the payload
+    // as two pieces split at `split`
+    std::vector<uint8_t> encode_ctx(const Markers &m, int how, int entry, const uint8_t *data, size_t n, size_t split);
+
     // ---- encoder entry points ----
     enum Entry
     {
